@@ -148,7 +148,7 @@ func (w *World) runStage(st *Stage) bool {
 		if st.Quiet && w.Idle() && pol.EnvWhenIdle && w.EnvOps != nil {
 			// a fair environment actor (e.g. the children's own controller) acts before the clock moves
 			if ops := w.EnvOps(w); len(ops) > 0 {
-				w.step++
+				w.bumpStep()
 				w.Store.Step = w.step
 				op := ops[w.T.Pick(len(ops), "env")]
 				w.logf("env %s", op.Name)
@@ -161,7 +161,7 @@ func (w *World) runStage(st *Stage) bool {
 		}
 		if st.Quiet && w.Idle() {
 			// nothing to do: move the clock, in growing strides, but never past the window
-			w.step++
+			w.bumpStep()
 			w.Store.Step = w.step
 			ss.idleRun++
 			d := 10 * time.Millisecond << uint(min(ss.idleRun, 16))
@@ -199,8 +199,8 @@ func (w *World) procBusy() bool {
 
 // incarnation is the body of one bubble.
 func (w *World) incarnation() (finished bool) {
-	w.start = time.Now()
 	w.mu.Lock()
+	w.start = time.Now()
 	w.crashed = false
 	w.workers = map[int]*workerState{}
 	w.parentOf = map[int]int{}
@@ -232,8 +232,10 @@ func (w *World) incarnation() (finished bool) {
 			}
 			w.pendReq, w.pendHook = nil, nil
 			w.mu.Unlock()
+			w.mu.Lock()
 			w.ss.clockBase += time.Since(w.start)
 			w.inc++
+			w.mu.Unlock()
 			resetProcessMemo()
 			finished = w.Violation != nil
 		}
@@ -258,6 +260,12 @@ func RunScenario(t *testing.T, sc *Scenario, tape *Tape, salt uint64, known []Kn
 	w := NewWorld(tape)
 	w.KnownFindings = known
 	w.Plan = plan
+	if RaceErrors != nil {
+		w.raceBase = RaceErrors()
+		if RaceReport != nil {
+			RaceReport() // drop what earlier runs of this process left behind
+		}
+	}
 	GlobalSetup(w, salt)
 	sc.Init(w)
 	for i := 0; i < 64; i++ {
